@@ -30,8 +30,8 @@ CLAIMED = {
          "Generated-input search: every variant's value, the enum's size/alignment and its Default are printed by the compiled code and compared with the description; the same on a 32-bit target through const probes; out-of-range values, bad default markers are rejected. Known finding F04 (negative value for unsigned base) is excluded by construction and demonstrated by its replay. Exploration.",
          "Values are limited to what the grammar's isize literals can write.",
          "DESIGN.md §4 C08"),
- "C15": ("proptest: executed singleton and extern-value accessors against memory mapped at the declared addresses; L0 rejection of extern values without address",
-         "Generated-input search with execution as oracle: type singletons dereference once (null gives None), enum singletons read the value in place, extern accessors return a reference to exactly the declared address with the declared type, writes are visible there. Exploration.",
+ "C15": ("proptest: executed singleton and extern-value accessors against memory mapped at the declared addresses; L0 rejection of extern values without address; reference binding rule for the accessor's type when the name is defined in several modules",
+         "Generated-input search with execution as oracle: type singletons dereference once (null gives None), enum singletons read the value in place, extern accessors return a reference to exactly the declared address with the declared type, writes are visible there; when the type name is defined in several modules, the accessor names the definition the scoping rules select (the C11 module sets and oracle). Exploration.",
          "Addresses are 64-aligned and drawn from ranges that can be mapped on the host.",
          "DESIGN.md §4 C15"),
  "C14": ("proptest rich multi-module inputs through pyxis::build on disk; file-set and exact item-set oracle (syn), marker-const placement for backend text; injected name collisions must be errors; dotted directory and file names",
